@@ -429,6 +429,9 @@ class Impl:
                         new[self.keyof(a)] = g_cfg(self.cfg, a)
                 f.archive(new)
                 out = ('unit',)
+            elif kind == 'memclear':
+                f.__cache__().clear()
+                out = ('unit',)
             elif kind == 'archset':
                 # another user of the attached archive stores the result for argument op[1]
                 c = f.__cache__()
@@ -530,6 +533,8 @@ def op_line(cfg, r):
         if op[1] is None:
             return 'setarch -'
         return 'setarch' + ''.join(' %d %d' % (k, vcode(g_cfg(cfg, a))) for k, a in zip(ex['kids'], op[1]))
+    if kind == 'memclear':
+        return 'memclear'
     if kind == 'archset':
         return 'archset %d %d' % (ex['kids'][0], vcode(g_cfg(cfg, op[1])) if len(op) < 3 else op[2])
     raise ValueError(op)
